@@ -18,7 +18,7 @@ import re
 from .. import core, tlc
 from .. import discoveryutil as du
 
-INVARIANTS = ["TypeOK", "Nearest", "Determinism", "ExactOnly", "JobInnermost", "MissingRaises", "InitFindsIt", "RemoveUndoesInit"]
+INVARIANTS = ["TypeOK", "Nearest", "Determinism", "ExactOnly", "JobInnermost", "MissingRaises", "InitFindsIt", "RemoveUndoesInit", "CliNearest", "CliInitHere"]
 PROPS = ["InitIdempotent", "SecondInitNoop"]
 _G = {}  # set before forking
 
@@ -352,6 +352,108 @@ def _device_variants(rec, idx, out):
     return n_eval
 
 
+# ---- the command line front end: every command is a fresh process started in a directory of the tree ----------------
+_EMPTY_ID = core.my_id({})
+
+
+def _cli_phase(rec, idx, out):
+    """TLC's command-level cases (cli field of every case) executed through the real entry point signac.__main__.main()"""
+    from ..clifront import run_cli
+    nodes, seed = rec["nodes"], _G["seed"] + idx
+    kinds = {tuple(n["p"]): n["k"] for n in nodes}
+    wdir = os.path.join(_G["root"], "w%d" % os.getpid())
+    base = os.path.join(wdir, "c%d" % idx)
+    scratch = os.path.join(wdir, "cli-scratch")
+    os.makedirs(scratch, exist_ok=True)
+    du.materialise(nodes, base, seed, use_api=False)
+    snap0 = du.snapshot(base)
+    n_cmd = 0
+
+    def rep(kind, sig, case, cmds, got, exp):
+        out.append({"kind": kind, "fn": "cli", "sig": sig, "spelling": "cli", "q": case["q"], "qclass": _qclass(kinds, case), "got": _strip(base, got),
+                    "exp": _strip(base, exp), "nodes": nodes, "seed": seed, "shape": _shape(kinds, case), "use_api": False,
+                    "extra": {"cmds": cmds}})
+
+    def jobp(cwd):
+        st, o, e = run_cli(scratch, cwd, ["job", "-p", "{}"])
+        line = o.strip()
+        suffix = os.sep + os.path.join("workspace", _EMPTY_ID)
+        if st == 0 and line.endswith(suffix):
+            return ("project", line[:-len(suffix)])
+        return ("exit-%d" % st, (o + e).strip()[:160])
+
+    try:
+        for case in rec["cases"]:
+            c = case["cli"]
+            if not c["cwd"]:
+                continue
+            q = case["q"]
+            cwd = du.ap(base, q)
+            want = ("project", du.ap(base, c["which"]["path"])) if c["which"]["ok"] else ("exit-1",)
+            got = jobp(cwd)
+            n_cmd += 1
+            if got[:len(want)] != want:
+                rel = du.relation(("project", got[1]) if got[0] == "project" else ("LookupError",) if got[0] == "exit-1" else ("error", got[0], ""),
+                                  ("project", want[1]) if want[0] == "project" else ("LookupError",))
+                rep("violation", "cli:job:%s:%s" % (_qclass(kinds, case), rel), case, [[q, ["job", "-p", "{}"]]], got, want)
+                continue
+            st, o, e = run_cli(scratch, cwd, ["find"])
+            ids = sorted(x for x in o.split() if x)
+            n_cmd += 1
+            if st != c["find"]["st"] or (st == 0 and ids != sorted(c["find"]["ids"])):
+                kind = "violation" if (not c["which"]["ok"] and st == 0) else "drift-CAL_CliFind"
+                rep(kind, "cli:find:%s" % ("answers-without-project" if kind == "violation" else "listing"), case, [[q, ["find"]]], [st, ids], [c["find"]["st"], sorted(c["find"]["ids"])])
+            st, o, e = run_cli(scratch, cwd, ["statepoint"])
+            n_cmd += 1
+            if st != c["spst"]:
+                kind = "violation" if (not c["which"]["ok"] and st == 0) else "drift-CAL_CliStatepoint"
+                rep(kind, "cli:statepoint:%s" % ("answers-without-project" if kind == "violation" else "status"), case, [[q, ["statepoint"]]], [st, (o + e)[:120]], [c["spst"]])
+            ini = c["init"]
+            if not ini["enabled"]:
+                continue
+            meta0 = du.file_meta(base)
+            st, o, e = run_cli(scratch, cwd, ["init"])
+            n_cmd += 1
+            snap1 = du.snapshot(base)
+            a, r, ch = du.snapdiff(snap0, snap1)
+            cmds = [[q, ["init"]]]
+            if st != 0:
+                rep("violation" if ini["existing"] else "drift-create", "cli:init:%s:exit-%d" % ("existing-project" if ini["existing"] else "create", st), case, cmds, [st, e[:160]], [0])
+            elif ini["existing"]:
+                touched = sorted(k for k in meta0 if meta0[k] != du.file_meta(base).get(k))
+                if a or r or ch or touched:
+                    rep("violation", "cli:init:existing-project:modifies-%s" % du.classify_paths(a + r + ch + touched), case, cmds, ["modified", a, r, ch, touched], ["unchanged"])
+            else:
+                exp_added = set()
+                for n in ini["added"]:
+                    rp = os.path.relpath(du.ap(base, n["p"]), base)
+                    rp = "" if rp == "." else rp + "/"
+                    if n["k"] == "ws":
+                        exp_added.add(rp)
+                    else:
+                        exp_added.update([rp + ".signac/", rp + ".signac/config"])
+                exp_added.discard("")
+                if set(a) != exp_added or r or ch:
+                    rep("drift-create", "cli:init:create:layout", case, cmds, [a, r, ch], [sorted(exp_added)])
+                got2 = jobp(cwd)
+                n_cmd += 1
+                want2 = ("project", du.ap(base, ini["after"]["path"]))
+                if got2[:2] != want2:
+                    rep("violation", "cli:init:project-not-created-at-cwd", case, cmds + [[q, ["job", "-p", "{}"]]], got2, want2)
+                st3, _, e3 = run_cli(scratch, cwd, ["init"])
+                n_cmd += 1
+                if st3 != 0 or du.snapshot(base) != snap1:
+                    rep("violation", "cli:init:second-init-not-a-no-op", case, cmds + [[q, ["init"]]], [st3, du.snapdiff(snap1, du.snapshot(base))], [0, "unchanged"])
+            if du.snapshot(base) != snap0:
+                _undo_added(base, du.snapdiff(snap0, du.snapshot(base))[0])
+                if du.snapshot(base) != snap0:
+                    du.rmtree(base)
+                    du.materialise(nodes, base, seed, use_api=False)
+    finally:
+        du.rmtree(base)
+    return n_cmd
+
+
 def _work(item):
     idx, line = item
     rec = json.loads(line)
@@ -363,6 +465,10 @@ def _work(item):
     if _G.get("other") and "mounts" in rec and du._h(_G["seed"], idx, "device") % _G["device_every"] == 0:
         cnt["eval"] += _device_variants(rec, idx, out)
         cnt["device"] = 1
+    cnt["cli"] = 0
+    if "cli" in rec["cases"][0] and du._h(_G["seed"], idx, "cli") % _G["cli_every"] == 0:
+        cnt["cli"] = _cli_phase(rec, idx, out)
+        cnt["cli_trees"] = 1
     return cnt, out[:20]
 
 
@@ -507,6 +613,8 @@ def _code_to_spec(ctx, workers, n):
 
 
 def _signature(f):
+    if f["fn"] == "cli":
+        return f["sig"]
     if f["fn"] == "init_project":
         if f["got"] and f["got"][0] == "modified":
             return "init_project:%s:modifies-%s" % ("second-call" if f["spelling"] == "second-call" else "existing-project", f["extra"]["changed"])
@@ -518,6 +626,10 @@ def _signature(f):
 
 
 def _what(f):
+    if f["fn"] == "cli":
+        tree = ", ".join("%s:%s%s" % ("/".join(n["p"]) or ".", n["k"], ("->" + "/".join(n["tgt"])) if n["k"] == "link" else "") for n in sorted(f["nodes"], key=lambda n: n["p"]))
+        return "command line: %s gave %r, the specification requires %r; tree {%s}" % (
+            "; ".join("(cd %s && signac %s)" % ("/".join(c[0]) or ".", " ".join(c[1])) for c in f["extra"]["cmds"]), f["got"], f["exp"], tree)
     q = "/".join(f["q"]) or "."
     tree = ", ".join("%s:%s%s" % ("/".join(n["p"]) or ".", n["k"], ("->" + "/".join(n["tgt"])) if n["k"] == "link" else "") for n in sorted(f["nodes"], key=lambda n: n["p"]))
     return "%s(%s)%s returned %r, the specification requires %r; tree {%s}" % (f["fn"], q, " [" + f["spelling"] + " " + json.dumps(f["extra"]) + "]" if f["extra"] else "", f["got"], f["exp"], tree)
@@ -570,7 +682,7 @@ def run(ctx):
             continue
     if other is None:
         ctx.notes.append("only one writable file system found: the cross-device family (CAL_DeviceBlind) was skipped")
-    _G.update(root=root, seed=ctx.seed, other=other, device_every=8 if ctx.quick else 10)
+    _G.update(root=root, seed=ctx.seed, other=other, device_every=8 if ctx.quick else 10, cli_every=10 if ctx.quick else 16)
     try:
         _run_body(ctx, workers, root, runs)
     finally:
@@ -579,7 +691,7 @@ def run(ctx):
 
 
 def _run_body(ctx, workers, root, runs):
-    total = {"eval": 0, "cases": 0, "trees": 0, "init_rich": 0, "hist": 0, "device": 0}
+    total = {"eval": 0, "cases": 0, "trees": 0, "init_rich": 0, "hist": 0, "device": 0, "cli": 0, "cli_trees": 0}
     findings = []
     shapes = {}
     first_lines = []
@@ -604,6 +716,8 @@ def _run_body(ctx, workers, root, runs):
             total["init_rich"] += cnt["init_rich"]
             total["hist"] += cnt["hist"]
             total["device"] += cnt.get("device", 0)
+            total["cli"] += cnt.get("cli", 0)
+            total["cli_trees"] += cnt.get("cli_trees", 0)
             for s, n in cnt["shapes"].items():
                 shapes[s] = shapes.get(s, 0) + n
             findings += fs
@@ -616,6 +730,11 @@ def _run_body(ctx, workers, root, runs):
     ctx.cov["cases_replayed"] = total["cases"]
     ctx.cov["init_project_on_rich_existing_projects"] = total["init_rich"]
     ctx.cov["cross_device_trees"] = {"trees": total["device"], "other_device_dir": os.path.dirname(_G["other"]) if _G.get("other") else None}
+    ctx.cov["command_line"] = {"trees": total["cli_trees"], "commands_run": total["cli"],
+                               "commands": "signac job -p '{}' / find / statepoint with cwd = every existing path of the tree; signac init (+ second init)"}
+    ctx.count(n=total["cli"], traces=total["cli"])
+    if total["cli"] == 0:
+        raise core.MachineryError("the command line phase did not run")
     ctx.cov["same_process_histories"] = total["hist"]   # query all -> init_project / remove project -> query all -> undo -> query all
     if total["init_rich"] == 0:
         raise core.MachineryError("no init_project call on a project with configuration entries, documents, cache and jobs")
@@ -649,6 +768,16 @@ def _run_body(ctx, workers, root, runs):
     out = []
     _check_tree(rec, os.path.join(root, "selftest3"), ctx.seed, out)
     st["unmodified_case_passes"] = not [f for f in out if f["kind"] == "violation"] or any(f["kind"] == "violation" for f in findings)
+    crec = json.loads(json.dumps(rec))
+    for c in crec["cases"]:
+        if c["cli"]["cwd"] and c["cli"]["which"]["ok"]:
+            c["cli"]["which"]["path"] = c["cli"]["which"]["path"] + ["zz"]
+            break
+    out = []
+    _cli_phase(crec, 999999, out)
+    st["corrupted_cli_expectation_detected"] = any(f["fn"] == "cli" and f["sig"].startswith("cli:job") for f in out)
+    if not st["corrupted_cli_expectation_detected"]:
+        raise core.MachineryError("binding self-test of the command line phase failed")
     ctx.cov["binding_selftest"] = st
     if not (st["corrupted_expected_project_detected"] and st["dropped_config_file_detected"]):
         raise core.MachineryError("binding self-test failed: %r" % st)
@@ -658,6 +787,30 @@ def _run_body(ctx, workers, root, runs):
 def replay(ctx, data):
     import signac
     base = os.path.join(os.path.realpath(ctx.mkdtemp("replay")), "t")
+    if data["spelling"] == "cli":
+        from ..clifront import run_cli
+        du.materialise(data["nodes"], base, data["seed"], use_api=False)
+        print("tree:", sorted(du.disk_nodes(base).items()))
+        snap = du.snapshot(base)
+        last = None
+        for q, argv in data["extra"]["cmds"]:
+            st, o, e = run_cli(ctx.work, du.ap(base, q), argv)
+            print("(cd $ROOT/%s && signac %s) -> exit %d  stdout %r stderr %r" % ("/".join(q), " ".join(argv), st, _strip(base, o.strip())[:200], e.strip()[:200]))
+            last = (st, o, e)
+        a, r, c = du.snapdiff(snap, du.snapshot(base))
+        print("changes on disk: added", a, "removed", r, "changed", c)
+        print("specification:", data["exp"], " observed when recorded:", data["got"])
+        exp = data["exp"]
+        st, o, e = last
+        if exp and exp[0] == "project":
+            return 0 if st == 0 and _strip(base, o.strip()).startswith(exp[1] + "/workspace/") and _strip(base, o.strip())[:-len("/workspace/" + _EMPTY_ID)] == exp[1] else 1
+        if exp and exp[0] == "exit-1":
+            return 0 if st == 1 else 1
+        if exp and exp[0] == "unchanged":
+            return 1 if (a or r or c) else 0
+        if exp and exp[0] == 0 and len(exp) > 1 and exp[1] == "unchanged":
+            return 0 if st == 0 else 1
+        return 0 if st == exp[0] else 1
     if data["spelling"] == "cross-device":
         import tempfile
         other = next((c for c in ("/tmp", "/dev/shm", "/var/tmp") if os.path.isdir(c) and os.access(c, os.W_OK)
